@@ -9,8 +9,10 @@ from check import Failure
 from sfv.canon import tok, untok, err_cat
 from sfv.props import ixcommon as ic
 from sfv.props.ixcommon import H, HT, Interner, parse_answer
+from sfv import locmap_hook            # regenerates Gen/LocMap.lean with the other translators (see the module)
+from sfv.props import locmap_grid as lmg
 
-TARGETS = ['SFModel.Props.C05']
+TARGETS = ['SFModel.Props.C05'] + locmap_hook.TARGETS
 THEOREMS = [
     'SF.C05.views_agree', 'SF.C05.containsPinned_overlong_counterexample', 'SF.C05.cache_coherent', 'SF.C05.ofLevel_coherent',
     'SF.C05.leaf_open_slice_bounded',
@@ -18,7 +20,9 @@ THEOREMS = [
     'SF.C05.hloc_exact_slices', 'SF.C05.hloc_slices_answer', 'SF.C05.clean_of_no_endpoints',
     'SF.C05.hloc_exact_stepped', 'SF.C05.hloc_exact_mask', 'SF.C05.hloc_stepped_answer', 'SF.C05.stepped_node_order',
     'SF.C05.stepped_node_selects', 'SF.C05.mask_matches_by_position', 'SF.C05.stepped_empty_leaf_counterexample',
-]
+    # + the offset handling of LocMap (map_slice_args, the `if offset_apply:` block of loc_to_iloc) TRANSLATED from the current
+    # source = Index.locMap, which Level.locToIloc calls at every node (BRIDGE_THEOREMS); leaf_open_slice_bounded restated for it
+] + locmap_hook.BRIDGE_THEOREMS + ['SF.C02LocMap.gen_leaf_open_slice_bounded', 'SF.C02LocMap.gen_list_positions']
 PARTIAL = ['SF.C05.hloc_exact_partial: label / all / list selectors; extended by hloc_exact_slices (label slices, step None / 1), hloc_exact_stepped '
            '(label slices with ANY non-zero step, positive or negative, at any depth: a slice matches by position in the label order of its node, '
            'a descending slice delivers the matches of its node in descending order, the result is a permutation of the matching positions and is in '
@@ -42,7 +46,7 @@ RULE = ('ragged trees of depth 2..4 (repeated inner labels under different paren
         'thorough: all tree shapes with <= 6 leaves and depth <= 3 over 3 labels per level with all selector combinations (depth 2) / '
         'a seeded sample of combinations (depth 3); non-trivial = tree with >= 2 tuples and >= 2 outer labels or a history with a mutation '
         'after a read; distinct = canonical case JSON')
-TRUSTED = ['ixcommon.H as the reading of label identity (np.datetime64 / datetime.date normalised)']
+TRUSTED = ['ixcommon.H as the reading of label identity (np.datetime64 / datetime.date normalised)', locmap_hook.TRUSTED]
 ASSUMPTIONS = ['selectors matching nothing and Boolean masks at outer depths are outside the claim (property text)',
                'repeated labels inside one list selector are not generated']
 BUDGET = {'quick': 70, 'thorough': 780}
@@ -51,6 +55,8 @@ ROUTES = ['from_labels', 'from_labels_gen', 'type_blocks', 'from_tree', 'from_in
 
 
 def nontrivial(c):
+    if c['k'] == lmg.K:
+        return lmg.nontrivial(c)
     if c['k'] == 'hist':
         return any(o[0] in ('ap', 'ex') for o in c['ops'])
     ts = c['toks']
@@ -376,6 +382,8 @@ def all_level_selectors(labs):
 def cases(ctx):
     rng = ctx.rng('main')
     quick = ctx.tier == 'quick'
+    # the translated LocMap functions under an offset (a node of a hierarchy) against the real ones: all label slices
+    yield from lmg.cases(ctx, offsets=(0, 3), sizes=(0, 1, 3), pools=('str',))
     # fixed boundary shapes
     yield {'k': 'hist', 'toks': [], 'kinds': ['s', 'i'], 'ops': [['len'], ['ap', tok(('a', 1))], ['list'], ['values'], ['ap', tok(('a', 2))], ['values'], ['vad', 1]]}
     yield {'k': 'hist', 'toks': [tok(('a', 1)), tok(('b', 1))], 'kinds': ['s', 'i'],
@@ -430,6 +438,8 @@ def build_case_ih(c):
 def model_lines(c):
     import static_frame as sf
     k = c['k']
+    if k == lmg.K:
+        return lmg.model_lines(c)
     intern = Interner()
     depth = len(c['kinds'])
     if k == 'views':
@@ -475,6 +485,8 @@ def hist_model_line(c):
 # ----------------------------------------------------------------------------- evaluation
 def evaluate(ctx, c, outs):
     ctx.count('kind_' + c['k'])
+    if c['k'] == lmg.K:
+        return lmg.evaluate(ctx, c, outs)
     if c['k'] == 'views':
         return eval_views(ctx, c, outs)
     if c['k'] == 'hloc':
